@@ -58,6 +58,18 @@ func vfMetaB(b bool) int {
 	return 0
 }
 
+// vfMetaLoop: the address every listener of this harness binds — a loopback address PRIVATE to this process
+// (127.a.b.c derived from the pid, port chosen by the kernel) instead of 127.0.0.1.  Reason (round 11, false alarm
+// `correspondence generated: idle` in a thorough run): the kernel recycles ephemeral ports, and a client of ANOTHER check
+// running on the same host at the same time that still reconnects to 127.0.0.1:<port of a daemon that is gone> (observed:
+// the nsq_to_nsq harness's producer, destination topic `dst`) reaches OUR daemon once it got that port — its publish created
+// a topic the script never asked for (file and memory agreed, the model disagreed).  A listener bound to 127.a.b.c is not
+// reachable through 127.0.0.1; the whole 127/8 is local on Linux.
+func vfMetaLoop() string {
+	p := os.Getpid()
+	return fmt.Sprintf("127.%d.%d.%d:0", 1+(p>>16)%250, (p>>8)&255, 1+p%254)
+}
+
 func vfMetaArm(point string, k int64) {
 	var cnt int64
 	VerifSetHook(point, func(string) {
@@ -109,8 +121,8 @@ func TestVerifMetaDaemon(t *testing.T) {
 	opts.Logger = log.New(lf, "", log.Lmicroseconds)
 	opts.LogLevel = LOG_WARN
 	opts.DataPath = dir
-	opts.TCPAddress = "127.0.0.1:0"
-	opts.HTTPAddress = "127.0.0.1:0"
+	opts.TCPAddress = vfMetaLoop()
+	opts.HTTPAddress = vfMetaLoop()
 	n, err := New(opts)
 	if err != nil {
 		fail(3, "new: "+err.Error())
@@ -278,7 +290,7 @@ func TestVerifMetaDaemon(t *testing.T) {
 		vfMetaForce(r.URL.Query().Get("point"))
 		io.WriteString(w, "ok")
 	})
-	l, err := net.Listen("tcp", "127.0.0.1:0")
+	l, err := net.Listen("tcp", vfMetaLoop())
 	if err != nil {
 		fail(7, err.Error())
 	}
@@ -560,8 +572,8 @@ func (r *vfMetaRun) exec(line string) {
 			o := NewOptions()
 			o.Logger = log.New(io.Discard, "", 0)
 			o.DataPath = r.dir
-			o.TCPAddress = "127.0.0.1:0"
-			o.HTTPAddress = "127.0.0.1:0"
+			o.TCPAddress = vfMetaLoop()
+			o.HTTPAddress = vfMetaLoop()
 			if n2, err := New(o); err == nil {
 				n2.tcpListener.Close()
 				n2.httpListener.Close()
@@ -1179,8 +1191,8 @@ func TestVerifMetaCutObservation(t *testing.T) {
 	opts := NewOptions()
 	opts.Logger = log.New(io.Discard, "", 0)
 	opts.DataPath = t.TempDir()
-	opts.TCPAddress = "127.0.0.1:0"
-	opts.HTTPAddress = "127.0.0.1:0"
+	opts.TCPAddress = vfMetaLoop()
+	opts.HTTPAddress = vfMetaLoop()
 	n, err := New(opts)
 	if err != nil {
 		t.Fatal(err)
@@ -1274,8 +1286,8 @@ func vfMetaRestartFrom(t *testing.T, doc []byte, c string) string {
 	opts2 := NewOptions()
 	opts2.Logger = log.New(io.Discard, "", 0)
 	opts2.DataPath = t.TempDir()
-	opts2.TCPAddress = "127.0.0.1:0"
-	opts2.HTTPAddress = "127.0.0.1:0"
+	opts2.TCPAddress = vfMetaLoop()
+	opts2.HTTPAddress = vfMetaLoop()
 	os.WriteFile(filepath.Join(opts2.DataPath, "nsqd.dat"), doc, 0600)
 	n2, err := New(opts2)
 	if err != nil {
@@ -1331,8 +1343,8 @@ func TestVerifMetaCutSteered(t *testing.T) {
 	opts := NewOptions()
 	opts.Logger = log.New(io.Discard, "", 0)
 	opts.DataPath = t.TempDir()
-	opts.TCPAddress = "127.0.0.1:0"
-	opts.HTTPAddress = "127.0.0.1:0"
+	opts.TCPAddress = vfMetaLoop()
+	opts.HTTPAddress = vfMetaLoop()
 	n, err := New(opts)
 	if err != nil {
 		t.Fatal(err)
